@@ -27,7 +27,8 @@
 EXTENDS Integers, Sequences, SequencesExt, FiniteSets, TLC, Json, IOUtils
 
 CONSTANTS Cmds, Objs,        \* commands and object names of the simulate_plan domain
-          HA, PA, HB, PB,    \* (<= HA handlers and <= PA messages) or (<= HB handlers and <= PB messages)
+          HA, PA,            \* sub-domain A: <= HA handlers, plans of <= PA messages over Cmds x Objs
+          HB, PB, BCmds, BObjs,   \* sub-domain B: <= HB handlers, plans of <= PB messages over BCmds x BObjs
           LimPlan,           \* check_limits domain: plans of <= LimPlan messages
           LimR,              \* limits range over -LimR..LimR (lo <= hi)
           SetR               \* set values range over -SetR..SetR
@@ -38,10 +39,11 @@ SetVals == (0 - SetR)..SetR
 END == 99          \* index "end"
 NoneVal == 0       \* Python None sent into the yield
 
-VARIABLES mode, hs, plan, lims,        \* inputs
+VARIABLES stage,                       \* "pick" (plan not chosen yet) | "done" (a complete case)
+          mode, hs, plan, lims,        \* inputs
           msgs, sent, ret, raised      \* outputs: returned messages (serial numbers), values received by the plan,
                                        \* recorded return value, check_limits raised
-vars == <<mode, hs, plan, lims, msgs, sent, ret, raised>>
+vars == <<stage, mode, hs, plan, lims, msgs, sent, ret, raised>>
 
 ----------------------------------------------------------------------------
 (* simulate_plan *)
@@ -77,16 +79,22 @@ IdxFor(k) == IF k = 1 THEN {0} ELSE (0..(k - 2)) \cup {END}
 HKinds(k) == {[cmds |-> c, flt |-> f, idx |-> i, res |-> k] : c \in CmdSeqs, f \in Objs \cup {"*"}, i \in IdxFor(k)}
 RECURSIVE HS(_)
 HS(n) == IF n = 0 THEN {<<>>} ELSE {Append(s, h) : s \in HS(n - 1), h \in HKinds(n)}
-SimMsgs == {[cmd |-> c, obj |-> o, val |-> 0] : c \in Cmds, o \in Objs}
 RECURSIVE Seqs(_, _)
 Seqs(S, n) == IF n = 0 THEN {<<>>} ELSE {Append(p, m) : p \in Seqs(S, n - 1), m \in S}
 UpTo(F(_), n) == UNION {F(k) : k \in 0..n}
-SimPlans(n) == Seqs(SimMsgs, n)
-SimDomain == (UpTo(HS, HA) \X UpTo(SimPlans, PA)) \cup (UpTo(HS, HB) \X UpTo(SimPlans, PB))
+AMsgs == {[cmd |-> c, obj |-> o, val |-> 0] : c \in Cmds, o \in Objs}
+BMsgs == {[cmd |-> c, obj |-> o, val |-> 0] : c \in BCmds, o \in BObjs}
+APlans(n) == Seqs(AMsgs, n)
+BPlans(n) == Seqs(BMsgs, n)
+PlansA == UpTo(APlans, PA)
+PlansB == UpTo(BPlans, PB)
+Heads == UpTo(HS, IF HA > HB THEN HA ELSE HB)
+SimPlansFor(h) == (IF Len(h) <= HA THEN PlansA ELSE {}) \cup (IF Len(h) <= HB THEN PlansB ELSE {})
 
 LimMsgs == {[cmd |-> "set", obj |-> d, val |-> v] : d \in {"m1", "m2", "n"}, v \in SetVals}
              \cup {[cmd |-> "read", obj |-> d, val |-> 0] : d \in {"m1", "m2", "n"}}
-LimPlans(n) == Seqs(LimMsgs, n)
+LPlans(n) == Seqs(LimMsgs, n)
+LimPlans == UpTo(LPlans, LimPlan)
 Ranges == {r \in LimVals \X LimVals : r[1] <= r[2]}
 MaxOf(S) == CHOOSE x \in S : \A y \in S : y <= x
 MinOf(S) == CHOOSE x \in S : \A y \in S : x <= y
@@ -94,23 +102,26 @@ LimSets == {<<[dev |-> "m1", has |-> TRUE, lo |-> r[1], hi |-> r[2]],
               [dev |-> "m2", has |-> TRUE, lo |-> q[1], hi |-> q[2]],
               [dev |-> "n", has |-> FALSE, lo |-> 0, hi |-> 0]>> :
                 r \in Ranges, q \in {<<MinOf(LimVals), MaxOf(LimVals)>>, <<0, 0>>}}
-LimDomain == LimSets \X UpTo(LimPlans, LimPlan)
 
-SimCase(c) == [mode |-> "sim", hs |-> c[1], plan |-> c[2], lims |-> <<>>, msgs |-> Serial(c[2]),
-               sent |-> SentFor(c[1], c[2]), ret |-> SentFor(c[1], c[2]), raised |-> FALSE]
+(* two steps, so that TLC's workers share the enumeration: Init picks the handlers / the devices, Pick the plan *)
 Init ==
-    \/ \E c \in SimDomain :
-          /\ mode = "sim" /\ hs = c[1] /\ plan = c[2] /\ lims = <<>>
-          /\ msgs = Serial(plan) /\ sent = SentFor(hs, plan) /\ ret = sent /\ raised = FALSE
-    \/ \E c \in LimDomain :
-          /\ mode = "limits" /\ hs = <<>> /\ plan = c[2] /\ lims = c[1]
-          /\ msgs = <<>> /\ sent = <<>> /\ ret = <<>> /\ raised = Scan(plan, 1, {})
-Next == UNCHANGED vars
+    /\ stage = "pick" /\ plan = <<>> /\ msgs = <<>> /\ sent = <<>> /\ ret = <<>> /\ raised = FALSE
+    /\ \/ mode = "sim" /\ hs \in Heads /\ lims = <<>>
+       \/ mode = "limits" /\ hs = <<>> /\ lims \in LimSets /\ LimPlan >= 0
+Pick ==
+    /\ stage = "pick" /\ stage' = "done"
+    /\ UNCHANGED <<mode, hs, lims>>
+    /\ IF mode = "sim"
+       THEN \E p \in SimPlansFor(hs) :
+               LET s == SentFor(hs, p) IN plan' = p /\ msgs' = Serial(p) /\ sent' = s /\ ret' = s /\ raised' = FALSE
+       ELSE \E p \in LimPlans :
+               plan' = p /\ msgs' = <<>> /\ sent' = <<>> /\ ret' = <<>> /\ raised' = Scan(p, 1, {})
+Next == Pick \/ (stage = "done" /\ UNCHANGED vars)
 Spec == Init /\ [][Next]_vars
 
 ----------------------------------------------------------------------------
 (* C32 in the vocabulary of the statement *)
-Sim == mode = "sim"
+Sim == stage = "done" /\ mode = "sim"
 MatchingOps(i) == {k \in DOMAIN hs : Matches(hs[k], plan[i])}      \* by order of registration
 
 \* "returns exactly the messages the plan yields, in order"
@@ -144,16 +155,20 @@ C32_ReturnRecorded == Sim => ret = sent
 
 \* "check_limits raises exactly when some set targets a limit-checked device with an out-of-limits value"
 Offending(i) == plan[i].cmd = "set" /\ OutOf(plan[i].obj, plan[i].val)
-C32_LimitsRaiseIffOffending == mode = "limits" => (raised <=> \E i \in DOMAIN plan : Offending(i))
+C32_LimitsRaiseIffOffending == stage = "done" /\ mode = "limits" => (raised <=> \E i \in DOMAIN plan : Offending(i))
 
 TypeOK == mode \in {"sim", "limits"} /\ raised \in BOOLEAN
 
 ----------------------------------------------------------------------------
 \* case dump for the replay (one JSON record per case)
-LimCase(c) == [mode |-> "limits", hs |-> <<>>, plan |-> c[2], lims |-> c[1], msgs |-> <<>>, sent |-> <<>>, ret |-> <<>>,
-               raised |-> LET p == c[2] IN \E i \in DOMAIN p : p[i].cmd = "set" /\
-                             \E j \in DOMAIN c[1] : c[1][j].dev = p[i].obj /\ c[1][j].has /\ (p[i].val < c[1][j].lo \/ p[i].val > c[1][j].hi)]
+SimCase(h, p) == LET s == SentFor(h, p)
+                 IN [mode |-> "sim", hs |-> h, plan |-> p, lims |-> <<>>, msgs |-> Serial(p), sent |-> s, ret |-> s, raised |-> FALSE]
+LimCase(ls, p) == [mode |-> "limits", hs |-> <<>>, plan |-> p, lims |-> ls, msgs |-> <<>>, sent |-> <<>>, ret |-> <<>>,
+                   raised |-> \E i \in DOMAIN p : p[i].cmd = "set" /\
+                                 \E j \in DOMAIN ls : ls[j].dev = p[i].obj /\ ls[j].has /\ (p[i].val < ls[j].lo \/ p[i].val > ls[j].hi)]
 DumpCases ==
     TLCGet("stats").generated >= 0 /\
-    ndJsonSerialize(IOEnv.CASES_OUT, SetToSeq({SimCase(c) : c \in SimDomain}) \o SetToSeq({LimCase(c) : c \in LimDomain}))
+    ndJsonSerialize(IOEnv.CASES_OUT,
+        SetToSeq(UNION {{SimCase(h, p) : p \in SimPlansFor(h)} : h \in Heads})
+        \o (IF LimPlan >= 0 THEN SetToSeq({LimCase(c[1], c[2]) : c \in LimSets \X LimPlans}) ELSE <<>>))
 =============================================================================
